@@ -690,3 +690,9 @@ func main() {
 }
 
 var extraGenerators []func(outDir string)
+
+func writeOut(path, content string) {
+	if err := os.WriteFile(path, []byte(content), 0o644); err != nil {
+		die("%v", err)
+	}
+}
